@@ -127,6 +127,14 @@ TYPES = [
     record("WBase", [F("a%02d" % i, P("string") if i % 9 == 4 else P("int32")) for i in range(36)]),
     record("Wide", [F("f%02d" % i, P("bool") if i % 8 == 5 else P("int32")) for i in range(34)] +
            [F("wo", P("int32"), True), F("wi", R("Inner"), True), F("wl", A(R("Inner")), True)], includes=["WBase"]),
+    # a chain of three REQUIRED record fields, each record with defaults of its own (a fresh default instance must carry the defaults at
+    # every depth, not only one level down)
+    record("D3", [F("x", P("int32"), default="5"), F("tags", A(P("string")), default='["t"]'), F("o", P("string"), True)]),
+    record("D2", [F("deep", R("D3")), F("k", P("int32"), default="2")]),
+    record("D1", [F("rRec", R("D2")), F("j", P("int32"), default="1")]),
+    # records with includes and NO own fields (and a record including such a record)
+    record("Alias", [], includes=["IBase"]),
+    record("Alias2", [F("q", P("int32"), True)], includes=["Alias"]),
 ]
 
 # top-level types the drivers exercise
